@@ -136,7 +136,7 @@ pub fn run(ctx: &Ctx) -> Report {
         }
         // ---- (2) random interleavings of reads/peeks/skips/code reads/byte reads/seeks, position checked after every step ----
         let o = GenOpts { seeks: true, io: true, codes: true, clones: true, pos: true, max_read_code_len: 200 };
-        let nhist = ctx.pick(3, 250, 10000);
+        let nhist = ctx.pick(3, 2000, 15000);
         for hix in 0..nhist {
             let pat = [Pattern::Random, Pattern::ZeroRuns, Pattern::Sparse, Pattern::Random, Pattern::Ones][hix % 5];
             let nb = ((4 + rng.below(60) as usize) / wb + 1) * wb;
